@@ -15,6 +15,7 @@ HISTORIES = [
     [[2, {'0': 1.0}], [2, {'1': 1.0}], [4, {'0': 1.0, '1': 2.0}], [4, {'0': 2.0}]],
     [[1, {'0': 2.0}], [3, {'0': 1.0}], [5, {'0': 2.0}], [7, {'0': 1.0}]],
     [[1, {'0': 1.0, '1': 2.0, '2': N}], [2, {'2': 1.0}], [2, {'2': 2.0}], [3, {'1': 2.0, '2': 1.0}]],
+    [[1, {'0': 1.0, '1': 1.0}], [2, {'0': 2.0}], [2, {'0': N, '1': 2.0}]],                           # NaN republished under a stamp already stored
     [[1, {'0': 1.0}]],
 ]
 
